@@ -141,6 +141,7 @@ PROPS["C13"] = {
     "contracts": ["contracts/C13_lysosome.py"],
     "level": "other",
     "extra": [{"name": "C13/bounded[histories depth 3]", "kind": "bounded", "tiers": ("quick",), "cmd": ["/venv/bin/python", "native/c13_bounded.py", "3"]},
+              {"name": "C13/bounded[two-thread schedules, one preemption]", "kind": "bounded", "cmd": ["/venv/bin/python", "native/c13_sched.py"]},
               {"name": "C13/bounded[histories depth 5]", "kind": "bounded", "tiers": ("thorough",), "timeout": 3000,
                "cmd": ["/venv/bin/python", "native/c13_bounded.py", "5"]}],
     "assumptions": ["max_queue_size >= 2, auto_digest_threshold >= 1",
